@@ -105,10 +105,55 @@ def gen_cases(rng, tier):
     return cases
 
 
+def alias_cases(rng, n):
+    """of_add_to_multiple_symbols with the SAME destination listed more than once (list semantics: one XOR per list entry, so a buffer listed
+    twice ends up unchanged).  Not in the byte-list model (its targets are values, not buffers): decided on the C by the sequential definition.
+    (seed C13i: a group of four destinations loaded first and stored afterwards)"""
+    out = []
+    for _ in range(n):
+        size = rng.choice([8, 9, 15, 16, 17, 24, 31, 33, 64])
+        nt = rng.rng(2, 12)
+        src = [rng.below(256) for _ in range(size)]
+        real = []          # distinct target buffers
+        toks = []          # per list entry: index into real
+        for t in range(nt):
+            if real and rng.chance(1, 3):
+                toks.append(rng.below(len(real)))
+            else:
+                real.append([rng.below(256) for _ in range(size)]); toks.append(len(real) - 1)
+        out.append((size, src, real, toks))
+    return out
+
+
 def run(c):
     g = gen_tables.generate(c.snap)
     c.prove(["Properties_C13.v"])
     cases = gen_cases(c.rng, c.tier)
+    # ---- aliased destinations
+    ali = alias_cases(c.rng, 150 if c.tier == "quick" else 1500)
+    alines = []
+    for size, src, real, toks in ali:
+        first = {}
+        parts = [hx(src)]
+        for pos, t in enumerate(toks):
+            if t in first:
+                parts.append("=%d" % first[t])
+            else:
+                first[t] = pos + 1
+                parts.append(hx(real[t]))
+        alines.append("K 3 %d 0 %s %s" % (size, "0" * (len(toks) + 1), " ".join(parts)))
+    aexe = vlib.build_c(c.snap, "drv_kernasan", "drv_kern.c", flags=None, exclude=("of_reed-solomon_gf_2_8.c",))
+    acl, acr = vlib.run_driver(aexe, alines)
+    for i, (size, src, real, toks) in enumerate(ali):
+        cur = [list(b) for b in real]
+        for t in toks:
+            for j in range(size):
+                cur[t][j] ^= src[j]
+        want = " ".join(hx(cur[t]) for t in toks) + " | " + hx(src)
+        if acl[i] != want:
+            c.violation("of_add_to_multiple_symbols size=%d with a destination listed more than once (entries %s): result differs from one XOR per list entry" %
+                        (size, toks), "kern", {"stream": "kern", "request": alines[i][:600], "c_answer": acl[i][:600], "expected": want[:600]})
+    c.cov["aliased_destination_cases"] = len(ali)
     lines = ["K %d %d %d %s %s" % (fn, size, cc, al, " ".join(hx(b) for b in bufs)) for fn, size, cc, al, bufs in cases]
     req = "\n".join(lines) + "\n"
     builds = [("asan", None)]
